@@ -87,10 +87,12 @@ Lemma stack0_tabs : forall {X} K A B (mf : nat -> nat -> nat -> X), K <> 0 ->
   stack0 (map (fun k => mkTn [A; B] (tab2 A B (mf k))) (seq 0 K)) = Some (mkTn [K; A; B] (tab3 K A B mf)).
 Proof.
   intros X K A B mf HK. destruct K as [|K]; [contradiction|]. unfold stack0.
-  rewrite <- cons_seq at 1. cbn [map]. cbn [shp].
-  assert (Hall : forallb (fun u => nats_eqb (shp u) [A; B]) (map (fun k => mkTn [A; B] (tab2 A B (mf k))) (seq 1 K)) = true).
-  { apply forallb_forall. intros u Hu. apply in_map_iff in Hu. destruct Hu as [k [<- _]]. cbn [shp]. apply nats_eqb_refl. }
-  rewrite Hall. rewrite cons_seq. rewrite map_length, seq_length, map_map. cbn [dat]. now rewrite concat_tab2_tab3.
+  set (F := fun k => mkTn [A; B] (tab2 A B (mf k))).
+  change (map F (seq 0 (S K))) with (F 0 :: map F (seq 1 K)). cbv iota.
+  assert (Hall : forallb (fun u => nats_eqb (shp u) (shp (F 0))) (map F (seq 1 K)) = true).
+  { apply forallb_forall. intros u Hu. apply in_map_iff in Hu. destruct Hu as [k [<- _]]. cbn [shp F]. apply nats_eqb_refl. }
+  rewrite Hall. change (F 0 :: map F (seq 1 K)) with (map F (seq 0 (S K))).
+  rewrite map_length, seq_length, map_map. unfold F. cbn [dat shp]. now rewrite concat_tab2_tab3.
 Qed.
 
 (* ---- comparisons of floats that are integers ---------------------------------------------------------------------- *)
